@@ -176,9 +176,14 @@ CATALOGUE = [
       "        columns = copula_dict['columns']\n        instance.columns = columns\n",
       "        columns = copula_dict['columns']\n        instance.columns = sorted(columns)\n",
       'column names not in sorted order'),
-    M('vine_constraint_always_true', 'C16', 'multivariate/tree.py',
-      "        return len(full_node) == (self.level + 1)\n", "        return True\n",
-      'regular vine, level >= 3'),
+    M('direct_kth_tree_wrong_parent', 'C16', 'multivariate/tree.py',
+      "            left_parent, right_parent = Edge.sort_edge([edges[k], edges[k + 1]])\n",
+      "            left_parent, right_parent = Edge.sort_edge([edges[0], edges[k + 1]])\n",
+      'direct vine, >= 4 columns, >= 2 trees'),
+    M('regular_kth_tree_revisits_nodes', 'C16', 'multivariate/tree.py',
+      "                    if k not in visited and k != x and self._check_constraint(edges[x], edges[k]):\n",
+      "                    if k != x and self._check_constraint(edges[x], edges[k]):\n",
+      'regular vine, >= 2 trees'),
     M('regular_first_tree_min', 'C16', 'multivariate/tree.py',
       "            edge = sorted(adj_set, key=lambda e: neg_tau[e[0]][e[1]])[0]\n",
       "            edge = sorted(adj_set, key=lambda e: neg_tau[e[0]][e[1]])[-1]\n",
@@ -223,11 +228,11 @@ CATALOGUE = [
       "        params = params.copy()\n        distribution = get_instance(params.pop('type'))",
       "        distribution = get_instance(params.pop('type'))", 'from_dict twice with one dict'),
     M('compare_drops_last_synthetic_row', 'C20', 'visualization.py',
-      "    data = pd.concat([real, synth], axis=0, ignore_index=True)\n    if not title:\n"
-      "        title = 'Real vs. Synthetic Data'\n        if columns:\n"
+      "    data = pd.concat([real, synth], axis=0, ignore_index=True)\n\n"
+      "    if not title:\n        title = 'Real vs. Synthetic Data'\n        if columns:\n"
       "            title += f\" for columns '{columns[0]}' and '{columns[1]}'\"",
-      "    data = pd.concat([real, synth.iloc[:-1]], axis=0, ignore_index=True)\n    if not title:\n"
-      "        title = 'Real vs. Synthetic Data'\n        if columns:\n"
+      "    data = pd.concat([real, synth.iloc[:-1]], axis=0, ignore_index=True)\n\n"
+      "    if not title:\n        title = 'Real vs. Synthetic Data'\n        if columns:\n"
       "            title += f\" for columns '{columns[0]}' and '{columns[1]}'\"",
       'compare_2d'),
 ]
@@ -278,7 +283,14 @@ def sensitivity(only=None, repo='/repo'):
                                                         if 'x oracle=' in ln)[:240]), flush=True)
         finally:
             shutil.rmtree(scratch, ignore_errors=True)
-    with open(os.path.join(OUT, 'sensitivity.json'), 'w') as f:
+    path = os.path.join(OUT, 'sensitivity.json')
+    if only and os.path.exists(path):
+        old = json.load(open(path))['mutants']
+        ids = {r['id'] for r in results}
+        known = {m['id'] for m in CATALOGUE}
+        results = [r for r in old if r['id'] not in ids and r['id'] in known] + results
+        missed = sum(1 for r in results if r.get('status') != 'CAUGHT')
+    with open(path, 'w') as f:
         json.dump({'mutants': results, 'missed': missed}, f, indent=1, sort_keys=True)
     # replays written while hunting mutants are not findings about /repo
     return 1 if missed else 0
